@@ -19,7 +19,7 @@ RULE = ("one evaluation = one written variable of one operation history (select 
         "FASTQ '+name'), compared with the bytes / field texts the row model predicts. Non-trivial = the variable went "
         "through >= 1 operation; distinct = distinct tuples (format, CRLF, chunked origin, op-kind 3-gram, clause, "
         "repeat/negative index present, replaced field kind, fields cached before the write)")
-BUDGET = {"quick": (6000, 40), "thorough": (90000, 900)}
+BUDGET = {"quick": (12000, 40), "thorough": (200000, 900)}
 
 FORMAT_WEIGHTS = [(3, "bed3"), (3, "bed6"), (2, "narrowpeak"), (3, "vcf"), (3, "sam"), (1, "gtf"), (3, "fastq"),
                   (2, "fasta2"), (1, "bdg")]
